@@ -435,3 +435,14 @@ impl Drop for StackDisplacement {
         }
     }
 }
+
+/// Point fd 2 of this (forked, single-purpose) process at a file.
+pub fn redirect_stderr_to(path: &Path) {
+    use std::os::fd::AsRawFd;
+    if let Ok(f) = std::fs::OpenOptions::new().create(true).write(true).truncate(true).open(path) {
+        // SAFETY: dup2 on this process's own descriptors.
+        unsafe {
+            dup2(f.as_raw_fd(), 2);
+        }
+    }
+}
